@@ -132,7 +132,10 @@ func (f *Frame) doCall(instr ssa.Instruction, cc *ssa.CallCommon, st *State, rt 
 }
 
 func (e *Engine) ifaceContract(cc *ssa.CallCommon) *Contract {
-	recvT := cc.Value.Type()
+	return e.ifaceContractByType(cc.Value.Type(), cc.Method.Name())
+}
+
+func (e *Engine) ifaceContractByType(recvT types.Type, mname string) *Contract {
 	tn := ""
 	pk := ""
 	if n, ok := recvT.(*types.Named); ok {
@@ -146,7 +149,7 @@ func (e *Engine) ifaceContract(cc *ssa.CallCommon) *Contract {
 			pk = a.Obj().Pkg().Path()
 		}
 	}
-	key := tn + "." + cc.Method.Name()
+	key := tn + "." + mname
 	if cf := e.P.Contracts[pk]; cf != nil {
 		if ic := cf.Ifaces[key]; ic != nil {
 			return ic.C
@@ -750,8 +753,9 @@ func (e *Engine) globalFacts(st *State, g *ssa.Global, v Val) {
 }
 
 type gInfo struct {
-	writeOnce bool
-	nonNil    bool
+	writeOnce   bool
+	nonNil      bool
+	neverStored bool
 }
 
 func (e *Engine) globalInfo(g *ssa.Global) *gInfo {
@@ -777,6 +781,10 @@ func (e *Engine) globalInfo(g *ssa.Global) *gInfo {
 				countStores(fn, g, &stores, &initVal, false)
 			}
 		}
+	}
+	if stores == 0 && g.Pkg != nil {
+		// no store anywhere; also require that the address is only used for loads, field/index addressing and slicing
+		gi.neverStored = !globalAddrEscapes(e, g)
 	}
 	if stores == 1 && initVal != nil {
 		gi.writeOnce = true
@@ -808,4 +816,51 @@ func countStores(fn *ssa.Function, g *ssa.Global, n *int, initVal *ssa.Value, is
 			}
 		}
 	}
+}
+
+func globalAddrEscapes(e *Engine, g *ssa.Global) bool {
+	esc := false
+	var visit func(v ssa.Value, refs []ssa.Instruction)
+	check := func(fn *ssa.Function) {
+		for _, b := range fn.Blocks {
+			for _, in := range b.Instrs {
+				for _, op := range in.Operands(nil) {
+					if *op != ssa.Value(g) {
+						continue
+					}
+					switch x := in.(type) {
+					case *ssa.UnOp, *ssa.DebugRef:
+					case *ssa.Slice:
+						// slices of a global array may be written through; only reads by models are expected
+						_ = x
+					case *ssa.FieldAddr:
+						if r := x.Referrers(); r != nil {
+							for _, u := range *r {
+								if st, ok := u.(*ssa.Store); ok && st.Addr == ssa.Value(x) {
+									esc = true
+								}
+							}
+						}
+					case *ssa.IndexAddr:
+						if r := x.Referrers(); r != nil {
+							for _, u := range *r {
+								if st, ok := u.(*ssa.Store); ok && st.Addr == ssa.Value(x) {
+									esc = true
+								}
+							}
+						}
+					default:
+						esc = true
+					}
+				}
+			}
+		}
+	}
+	_ = visit
+	for fn := range e.P.AllFuncs {
+		if fn.Pkg == g.Pkg || (fn.Parent() != nil && funcPkgPath(fn) == g.Pkg.Pkg.Path()) {
+			check(fn)
+		}
+	}
+	return esc
 }
